@@ -131,6 +131,16 @@ CLAIMS.update({
    technique="Lean 4 proof (induction over call histories) + exhaustive short-history correspondence"),
 })
 
+CLAIMS.update({
+ 'C14': dict(level='proof',
+   text="PARTIAL. Proved in Lean for ALL inputs: every modelled parser/machine is a total function whose fuel is provably sufficient (header_parser_total / parse_no_fuel, decFrom_outcome), the explicit panics of the STREAM reader and writer "
+        "(dirty buffer, partial-chunk flush, counter wrap below 2^88 chunks) are unreachable (stream_reader_never_panics, stream_writer_never_panics, stream_close_never_panics), a passphrase identity derives keys only within its maximum (kdf_work_bounded), "
+        "armor failures carry the armor error class, Decrypt is total and an error carries no reader. Tie/C14: the list of explicit panic sites and the order 'checks before scrypt.Key' are regenerated from the source and pinned. "
+        "NOT provable in a model: Go runtime panics or hangs in unmodelled code (encoding/base64, bufio, x/crypto SSH/PEM/bcrypt parsers) — supported by a mutation-based differential fuzz of every entry point under recover() and a watchdog, with the model predicting Decrypt's outcome on every mutated file.",
+   note=COMMON_NOTE + "Partial by nature: absence of runtime panics in code the model abstracts is exercised, not proved.",
+   technique="Lean 4 proof (totality, fuel sufficiency, unreachable panic outcomes) + differential mutation fuzzing under recover()/watchdog"),
+})
+
 def main():
     hook = subprocess.run(['git', '-C', '/repo', 'log', '--format=%h', '--grep=^verifhook', '-n', '5'], capture_output=True, text=True).stdout.split()
     m = {
